@@ -35,10 +35,10 @@
    any offset, fresh list of any capacity: every value counted (also those that do not fit), value j = what the value parser
    reports for text j at its own offset, the header-value span runs from the first byte of the first value to the last byte
    of the last one; commas inside quoted strings do not split.
-   The star value: C09_star_value.
+   The star value: C09_star_value.  The P-Asserted-Identity list with the same values (PaiGen.v): C09_pai_list_general_values.
    PARTIAL: white space inside quoted strings, commas inside the brackets, header counts at the list level for the
    general shapes: render/parse oracle on values, lists and messages (offsets != 0, chunked, reused objects) and correspondence. *)
-From Sipsp Require Import Harness IP4 Numbers Misc NameAddrSpec NameAddrParam ContactSpec Capacity UpperBound NestMsg SigCoherent HdrSpec TokItem NameAddrGen ContactGen.
+From Sipsp Require Import Harness IP4 Numbers Misc NameAddrSpec NameAddrParam ContactSpec Capacity UpperBound NestMsg SigCoherent HdrSpec TokItem NameAddrGen ContactGen PaiGen.
 Theorem C09_contact_expires_value : forall ds, all_digits ds -> expires_of ds = N.min (dec ds) MaxU32.
 Proof. exact contact_expires_saturates. Qed.
 Theorem C09_multi_value_header_kinds : forall h,
@@ -406,6 +406,55 @@ Proof.
   - apply gv_plain_ok; [right; exact Ws|constructor|repeat constructor|left; reflexivity].
   - apply gv_bare_ok; [left; reflexivity|exact I|repeat constructor|left; reflexivity].
 Qed.
+(* ---- the P-Asserted-Identity list with general values ------------------------------------------------------------------------------------------- *)
+Theorem C09_pai_list_general_values : forall gs (junk sp : list byte) x tail, gs <> [] -> Forall (gv_okh HdrPAI) gs -> spaces sp -> is_sp x = false ->
+  let i := nnat (length junk) in
+  let vs := gl_vals i gs in
+  exists C, parse_all_pais (junk ++ gl_text gs sp ++ CR :: LF :: x :: tail) i pais0
+            = Done (gl_end i gs + nnat (length sp) + 2) EOk C /\
+    pa_n C = nnat (length gs) /\
+    (forall j, (j < length gs)%nat -> (j < paiVals)%nat -> nth j (pa_vals C) pfrom0 = nth j vs pfrom0) /\
+    pa_lasthval C = mkpf (gl_start i gs) (gl_end i gs - gl_start i gs).
+Proof. exact pai_general_list_spec. Qed.
+(* the same values, of kind HdrPAI (and in general of any kind that takes several values) *)
+Theorem C09_values_of_any_multi_value_kind : forall h l D uri g n0 name L t, multipleValsOk h = true -> gap 0 l -> gap 0 g ->
+  (disp D -> Forall uchar uri -> gv_okh h (gv_plainh h l D uri g) /\ (Forall t_ok L -> t_ok t -> gv_okh h (gv_paramsh h l D uri g L t))) /\
+  (nchar0 n0 -> Forall nchar name -> gv_okh h (gv_bareh h l n0 name g) /\ (Forall t_ok L -> t_ok t -> gv_okh h (gv_bare_paramsh h l n0 name g L t))).
+Proof.
+  intros h l D uri g n0 name L t Hmv Hl Hg. split.
+  - intros HD Hu. split; [apply gv_plain_okh; assumption|intros HL Ht; apply gv_params_okh; assumption].
+  - intros H0 H1. split; [apply gv_bare_okh; assumption|intros HL Ht; apply gv_bare_params_okh; assumption].
+Qed.
+Theorem C09_value_requirements_mean : forall h g, gv_okh h g <->
+  gap 0 (gv_l g) /\ (exists c X', gv_x g = c :: X' /\ is_ws c = false) /\ gap 0 (gv_g g) /\ gv_x g <> [] /\
+  (forall (pre y : list byte) i, i = nnat (length pre) ->
+     run (fb_iter h) pre (gv_x g ++ gv_g g ++ (44 : byte) :: y) i 0 pfrom0 = Done (i + nnat (length (gv_x g)) + nnat (length (gv_g g)) + 1) EMoreValues (gv_v g i)) /\
+  (forall (pre sp : list byte) x tail i, i = nnat (length pre) -> spaces sp -> is_sp x = false ->
+     run (fb_iter h) pre (gv_x g ++ sp ++ CR :: LF :: x :: tail) i 0 pfrom0 = Done (i + nnat (length (gv_x g)) + nnat (length sp) + 2) EOk (gv_v g i)) /\
+  (forall i, fb_parsed (gv_v g i) = true /\ fb_v (gv_v g i) = mkpf i (nnat (length (gv_x g))) /\ fb_star (gv_v g i) = false).
+Proof. intros. reflexivity. Qed.
+(* satisfiable and evaluated: P:<s:a> , "B" <s:b>;x=1 CR LF at offset 2 *)
+Definition c09_ex_pgs : list gval :=
+  [gv_plainh HdrPAI [] [] [115;58;97] [32]; gv_paramsh HdrPAI [32] ((34 : byte) :: [66] ++ (34 : byte) :: [32]) [115;58;98] [] [] (mkpit [] [120] (Some ([], [], [49])) [])].
+Example C09_pai_list_example :
+  Forall (gv_okh HdrPAI) c09_ex_pgs /\
+  [80;58] ++ gl_text c09_ex_pgs [] ++ CR :: LF :: [65] = [80;58; 60;115;58;97;62; 32; 44; 32; 34;66;34; 32; 60;115;58;98;62; 59; 120;61;49; 13;10; 65] /\
+  match parse_all_pais ([80;58] ++ gl_text c09_ex_pgs [] ++ CR :: LF :: [65]) 2 pais0 with
+  | Done o e C => o = 25 /\ e = EOk /\ pa_n C = 2 /\ pa_lasthval C = mkpf 2 21 /\ firstn 2 (pa_vals C) = gl_vals 2 c09_ex_pgs
+  | _ => False
+  end.
+Proof.
+  assert (Ws : wsrun 0 [32]) by (apply wsrun_blanks; [discriminate|repeat constructor]).
+  split; [|split; [vm_compute; reflexivity|vm_compute; repeat split; reflexivity]].
+  unfold c09_ex_pgs. constructor; [|constructor; [|constructor]].
+  - apply gv_plain_okh; [reflexivity|left; reflexivity|constructor|repeat constructor|right; exact Ws].
+  - apply gv_params_okh; [reflexivity|right; exact Ws| |repeat constructor|left; reflexivity|constructor|].
+    + apply (d_quoted [66] [32]); [apply fqc_plain; [discriminate|discriminate|discriminate|apply fqc_nil]|apply nt_w; exact Ws].
+    + unfold t_ok. cbn [t_g1 t_name t_val t_g4]. split; [left; reflexivity|]. split; [exists 120, []; split; [reflexivity|split; [reflexivity|constructor]]|].
+      split; [split; [left; reflexivity|split; [left; reflexivity|apply vt_tok; [exact I|constructor]]]|left; reflexivity].
+Qed.
+Print Assumptions C09_pai_list_general_values.
+Print Assumptions C09_values_of_any_multi_value_kind.
 Print Assumptions C09_contact_list_general_values.
 Print Assumptions C09_general_values_are_covered.
 Print Assumptions C09_bare_values_are_covered.
